@@ -34,7 +34,7 @@ RULE = (
     "(document text, position, path); non-trivial = the planted line is beyond line 1 and at least one "
     "call-site frame lies in a template."
 )
-RULE += ' added since: positions for-iterable, loop body, elif/while tests, <%call expr>, tag attribute, include file expression, functions of a first and second <%! %> block (also through a namespace), relay back through caller.body(); warnings from literal comparisons, invalid escapes in for iterables, def bodies and module blocks; relative module_directory / module_filename; alternating frames of two templates. module directory reached through a symbolic link. the format_exceptions page through render() with an output encoding. filler holding U+2028, U+2029, U+0085, FF, VT, FS-US (line breaks for str.splitlines only).'
+RULE += ' added since: positions for-iterable, loop body, elif/while tests, <%call expr>, tag attribute, include file expression, functions of a first and second <%! %> block (also through a namespace), relay back through caller.body(); warnings from literal comparisons, invalid escapes in for iterables, def bodies and module blocks; relative module_directory / module_filename; alternating frames of two templates. module directory reached through a symbolic link. the format_exceptions page through render() with an output encoding. filler holding U+2028, U+2029, U+0085, FF, VT, FS-US (line breaks for str.splitlines only). edit-and-recompile into the same module file within one process (traceback, text page, compile warning).'
 ASSUMPTIONS = [
     "generated glue frames that correspond to no construct (def stubs, cache wrappers) are only required to carry "
     "the right template identity and a line inside the source",
@@ -42,6 +42,7 @@ ASSUMPTIONS = [
 ]
 MIN_NONTRIVIAL = 200
 REQUIRED_COUNTERS = ["tracebacks_checked", "callsite_frames_checked", "python_frames_checked", "text_error_pages", "html_error_pages", "format_exceptions_pages", "warnings_cases", "multi_template_tracebacks"]
+REQUIRED_COUNTERS += ["edit_and_recompile_rounds"]
 
 _st = {}
 
@@ -581,7 +582,59 @@ def run_warning_case(r, wname, action, path, nl, res):
         shutil.rmtree(d, ignore_errors=True)
 
 
+def run_edit_and_recompile(res):
+    """a module-directory template whose traceback (and compile warning) was already formatted once is EDITED - lines
+    are inserted above the failing one - and compiled again into the same module file, in the same process: the next
+    traceback and warning report the lines of the new text"""
+    import time as _time
+    import warnings as _w
+
+    ex = _st["exceptions"]
+    L = _st["TemplateLookup"]
+    for shift in (1, 3, 6):
+        _st["n"] += 1
+        d = os.path.join(_st["tmp"], "e%d" % _st["n"])
+        root = os.path.join(d, "root")
+        os.makedirs(root)
+        fp = os.path.join(root, "main.html")
+        try:
+            def write(extra):
+                text = "".join("filler %d\n" % k for k in range(extra)) + "first\n${len('\\d')}\n<%\n    y_ = 1\n    boom('T')\n%>\nlast\n"
+                with open(fp, "w") as f:
+                    f.write(text)
+                t_ = _time.time() + (10 if extra else 0)
+                os.utime(fp, (t_, t_))
+                return extra + 5, extra + 2, text.split("\n")
+
+            for round_, extra in enumerate((0, shift)):
+                line, wline, lines = write(extra)
+                lk = L(directories=[root], module_directory=os.path.join(d, "mods"), imports=IMPORTS)
+                res.evaluations += 1
+                res.count("edit_and_recompile_rounds")
+                what = "main.html %s (raise on line %d, invalid escape on line %d), module directory reused" % ("as first written" if not extra else "edited: %d lines inserted on top" % extra, line, wline)
+                with _w.catch_warnings(record=True) as caught:
+                    _w.simplefilter("always")
+                    try:
+                        lk.get_template("/main.html").render_unicode()
+                        res.violate("harness", "%s: the planted raise did not happen" % what)
+                        continue
+                    except Exception:
+                        rt = ex.RichTraceback()
+                        page = ex.text_error_template().render_unicode()
+                if rt.lineno != line or (rt.source or "").split("\n")[line - 1:line] != [lines[line - 1]]:
+                    res.violate("richtraceback-after-recompile", "%s: RichTraceback reports line %r, source line %r" % (what, rt.lineno, (rt.source or "").split("\n")[rt.lineno - 1:rt.lineno]))
+                if ('File "%s", line %d' % (fp, line)) not in page:
+                    res.violate("text-error-page-after-recompile", "%s: the text error template lacks line %d:\n%s" % (what, line, page[-400:]))
+                ws = [(w_.filename, w_.lineno) for w_ in caught if issubclass(w_.category, (SyntaxWarning, DeprecationWarning))]
+                if ws and ws != [(fp, wline)]:
+                    res.violate("warning-after-recompile", "%s: compile warning shown at %r, expected %r" % (what, ws, [(fp, wline)]))
+            res.nontrivial("edit-recompile", shift)
+        finally:
+            shutil.rmtree(d, ignore_errors=True)
+
+
 def gen_cases(tier, seed):
+    yield {"kind": "edit-recompile"}
     n = 40 if tier == "quick" else 400
     for i in range(n):
         for pos in POSITIONS:
@@ -594,7 +647,9 @@ def gen_cases(tier, seed):
 
 def run_case(case):
     res = common.CaseResult()
-    if case["kind"] == "tb" and "spec" not in case:
+    if case["kind"] == "edit-recompile":
+        run_edit_and_recompile(res)
+    elif case["kind"] == "tb" and "spec" not in case:
         r = common.rng_for(case["seed"], "c12", case["index"], case["pos"])
         for path in PATHS:
             nl = r.choice(["\n", "\n", "\r\n"])
